@@ -124,8 +124,10 @@ def cfg_C04(tier, rng):
 
 
 def cfg_C05(tier, rng):
-    k = 5 if tier == QUICK else 24
+    k = 4 if tier == QUICK else 24
     charts = gc.family_f3(rng, k, nmin=3, nmax=5, tmin=3, tmax=6, nev=2, max_oracle=2)
+    # several regions react to one event (several event-triggered micro steps in a macro step)
+    charts += [c for c in gc.family_fanout(rng, 12) if c['n'] <= 10][:2 if tier == QUICK else 8]
     return [dict(name='queues', charts=charts,
                  consts=dict(MaxQ=2 if tier == QUICK else 3, MaxClk=2 if tier == QUICK else 3,
                              Delays={0, 1, 2}, Advances={1, 2}, Params={0},
@@ -151,8 +153,9 @@ def cfg_C13(tier, rng):
     return [dict(name='time', charts=charts,
                  consts=dict(MaxQ=1, MaxClk=4 if tier == QUICK else 5, Delays={0, 1}, Advances={1, 2},
                              MaxLevel=8 if tier == QUICK else 9),
-                 variants=[dict(variant='api', shadow=True), dict(variant='api', epoch=EPOCH)],
-                 jobs_for=(lambda ci, h, r: [[dict(variant='api', shadow=True), dict(variant='api', epoch=EPOCH)][(ci + len(h)) % 2]])
+                 variants=[dict(variant='api', shadow=True), dict(variant='api', epoch=EPOCH), dict(variant='api', moving=True)],
+                 jobs_for=(lambda ci, h, r: [[dict(variant='api', shadow=True), dict(variant='api', epoch=EPOCH),
+                                              dict(variant='api', moving=True)][(ci + len(h)) % 3]])
                  if tier == QUICK else None,
                  random=dict(count=200 if tier == QUICK else 2000, length=25, delays=(0, 1, 2),
                              advances=(1, 2, 3), maxq=3,
@@ -236,6 +239,10 @@ def cfg_C09(tier, rng):
             dict(name='ignored', charts=charts[:len(charts) // 2] + rich,
                  consts=dict(MaxQ=1, MaxLevel=5, MaxCFail=3, Opt={'ignore': True, 'metas': True}),
                  variants=[dict(variant='api', ignore_contract=True)],
+                 # ... and a pickled / deep-copied interpreter that ignores its contracts still ignores them
+                 jobs_for=lambda ci, h, r: [dict(variant='api', ignore_contract=True)] + (
+                     [dict(variant='api', ignore_contract=True, fork=dict(at=len(h) - 1, mode=('pickle', 'deepcopy')[ci % 2]))]
+                     if len(h) >= 2 and (ci + len(h)) % 3 == 0 else []),
                  random=dict(count=100 if tier == QUICK else 1000, length=14, pfail=0.5,
                              family=lambda r, kk: gc.family_f3(r, kk, nmin=5, nmax=8, contracts=True)))]
 
@@ -258,7 +265,9 @@ def cfg_C10(tier, rng):
                 c['entry'][s_] = dict(c['entry'][s_], tick=1)
     return [dict(name='monitor', charts=base + rich,
                  consts=dict(MaxQ=1, MaxClk=6, MaxMFail=14 if tier == QUICK else 20, MaxLevel=4 if tier == QUICK else 5),
-                 variants=[dict(variant='api', monitor=True)],
+                 variants=[dict(variant='api', monitor=True), dict(variant='api', monitor=True, moving=True)],
+                 jobs_for=(lambda ci, h, r: [dict(variant='api', monitor=True, **({'moving': True} if (ci + len(h)) % 2 else {}))])
+                 if tier == QUICK else None,
                  random=dict(count=100 if tier == QUICK else 1000, length=12, pmfail=0.3,
                              family=lambda r, kk: gc.family_f3(r, kk, nmin=5, nmax=8))),
             dict(name='watchdog', charts=rich[:3],
